@@ -15,6 +15,7 @@ import Mathlib.Algebra.Order.Floor.Ring
 import Mathlib.Data.Rat.Floor
 import Mathlib.Order.Monotone.Basic
 import Mathlib.Tactic.Linarith
+import Fir.Proofs.IeeeLemmas
 
 namespace Fir.C17
 open Fir.Gen
@@ -234,5 +235,14 @@ theorem supported_pairs :
 example : conv_i32_u8 (conv_u8_i32 200) = 200 := by decide
 example : conv_i32_u16 (-5) = 0 ∧ conv_i32_u16 2147483647 = 65535 := by decide
 example : f32ToUnsigned 65535 (unsignedToF32 65535 12345) = 12345 := by decide +kernel
+
+/-! ### the premises about rounding discharged for IEEE-754 round-to-nearest-even (`Fir.Ieee.flP`) -/
+
+section IeeeInstances
+open Fir.Ieee Fir.Flt
+/-- `float_to_int_monotone` for IEEE binary32 (the `f32 -> u8 / u16 / i32` conversions) -/
+theorem float_to_int_monotone_ieee (lo m : ℚ) (hm : 0 ≤ m) (smin smax : ℤ) : Monotone (floatToInt (flP 24) lo m smin smax) :=
+  float_to_int_monotone (flP 24) (flP_monotone 24 (by norm_num)) lo m hm smin smax
+end IeeeInstances
 
 end Fir.C17
